@@ -42,6 +42,9 @@ type Step struct {
 	// Quiet (cut): the client is gone but the server has not noticed: its next write to the exchange fails, and
 	// only that failure ends the exchange (memhttp.CutQuietly). Until then a resume may find the stream taken.
 	Quiet bool `json:"quiet,omitempty"`
+	// Dies (resume, sresume) > 0: the resuming client vanishes unnoticed while it is being served: the server's
+	// write number Dies to that exchange is the first to fail (1: the very first replayed event).
+	Dies int `json:"dies,omitempty"`
 }
 
 type Script struct {
@@ -74,6 +77,9 @@ func genScript(rt *rapid.T, race bool) Script {
 		if st.Kind == "cut" {
 			st.Quiet = rapid.IntRange(0, 2).Draw(rt, "quiet") == 0
 		}
+		if (st.Kind == "resume" || st.Kind == "sresume") && rapid.IntRange(0, 4).Draw(rt, "dies") == 0 {
+			st.Dies = rapid.IntRange(1, 3).Draw(rt, "dies_at")
+		}
 		if race {
 			st.NoWait = rapid.IntRange(0, 3).Draw(rt, "nowait") == 0
 		}
@@ -90,6 +96,10 @@ func genScript(rt *rapid.T, race bool) Script {
 			}
 			if st.Kind == "cut" && rapid.IntRange(0, 3).Draw(rt, "finish_detached") == 0 {
 				s.Steps = append(s.Steps, Step{Kind: "finish", S: st.S})
+			}
+			if rapid.IntRange(0, 3).Draw(rt, "dying_resume") == 0 {
+				// a resume whose client vanishes while the stored events are replayed to it, then the real one
+				s.Steps = append(s.Steps, Step{Kind: r, S: st.S, I: rapid.IntRange(0, 11).Draw(rt, "dri"), Dies: rapid.IntRange(1, 3).Draw(rt, "dies_at")})
 			}
 			s.Steps = append(s.Steps, Step{Kind: r, S: st.S, I: rapid.IntRange(0, 11).Draw(rt, "ri"), Inject: race && r == "resume" && rapid.Bool().Draw(rt, "inject")})
 		}
@@ -611,7 +621,17 @@ func runInBubble(s Script) (res vt.Result) {
 				store.injMu.Unlock()
 				res.Class("write_overlapping_resume")
 			}
+			if st.Dies > 0 {
+				tr.DieAfterWrites = func(r *http.Request) int {
+					if r.Method == "GET" && r.Header.Get("Last-Event-ID") != "" {
+						return st.Dies - 1
+					}
+					return -1
+				}
+				res.Class("resuming_client_vanishes_while_served")
+			}
 			ex := do("GET", "", map[string]string{"Last-Event-ID": fmt.Sprintf("%s_%d", sr.sid, idx)})
+			tr.DieAfterWrites = nil
 			store.injMu.Lock()
 			store.injectOnce = nil
 			store.injMu.Unlock()
@@ -620,6 +640,9 @@ func runInBubble(s Script) (res vt.Result) {
 				return finish(res, s, &desc, nt)
 			}
 			e := &exch{ex: ex, from: idx, hasFrom: true}
+			if st.Dies > 0 {
+				e.cut, e.quiet = true, true // gone from the start as far as later messages are concerned
+			}
 			switch ex.Status() {
 			case 200, 0: // 0: accepted, nothing to replay yet, headers not committed
 				if wasAttached && !racing {
@@ -696,12 +719,26 @@ func runInBubble(s Script) (res vt.Result) {
 			if detachedWrites[standalone] && !wasAttached {
 				nt = true
 			}
+			saHalfOpenBefore := standalone.halfOpen()
+			if st.Dies > 0 {
+				tr.DieAfterWrites = func(r *http.Request) int {
+					if r.Method == "GET" && r.Header.Get("Last-Event-ID") != "" {
+						return st.Dies - 1
+					}
+					return -1
+				}
+				res.Class("resuming_client_vanishes_while_served")
+			}
 			ex := do("GET", "", map[string]string{"Last-Event-ID": fmt.Sprintf("_%d", idx)})
+			tr.DieAfterWrites = nil
 			if ex == nil {
 				res.Failf("step %d: GET produced no exchange", i)
 				return finish(res, s, &desc, nt)
 			}
 			e := &exch{ex: ex, from: idx, hasFrom: true}
+			if st.Dies > 0 {
+				e.cut, e.quiet = true, true
+			}
 			switch ex.Status() {
 			case 200, 0:
 				if wasAttached && !racing {
@@ -714,7 +751,7 @@ func runInBubble(s Script) (res vt.Result) {
 				}
 			case 409:
 				e.conflict = true
-				if !wasAttached && !racing {
+				if !wasAttached && !racing && !saHalfOpenBefore {
 					res.Failf("step %d: resume of the standalone stream refused with 409 although nothing is attached", i)
 				}
 			default:
